@@ -55,9 +55,11 @@ func runDadapt(line, text string) core.Outcome {
 				What: fmt.Sprintf("same text adapted %d times gives different JSON: %s; input %q", k+1, firstDiff(first.json, r.json), clip(text, 500))})
 			return o
 		}
+		sideOutputTags(first, r, &o)
 	}
 	if first.accepted() {
-		checkValid(line, text, first.json, true, &o)
+		// strict: the merged shapes must load (decode + provision + validate), not only decode
+		checkValid(line, text, first.json, false, &o)
 	}
 	return o
 }
@@ -241,4 +243,66 @@ func genFauthCase(r *core.Rand) string {
 		args = append(args, a)
 	}
 	return "fauth " + strings.Join(args, ";")
+}
+
+// genMergeCase: several site blocks whose TLS automation policies, connection policies, log host lists and routes
+// are MERGED by the adapter (consolidateAutomationPolicies, consolidateConnPolicies, consolidateRoutes, the
+// hosts collected per server) — "duplicates that merge"; emitted as `dadapt` (64 adaptations).
+func genMergeCase(r *core.Rand) string {
+	hosts := []string{"a.test", "b.test", "c.test", "A.Test", "*.w.test", "x.w.test", "d.localhost", "e.localhost", "f.internal", "example.com", "sub.example.com"}
+	tlsBodies := []string{
+		"\ttls internal",
+		"\ttls internal",
+		"\ttls x@y.test",
+		"\ttls {\n\t\tprotocols tls1.2 tls1.3\n\t}",
+		"\ttls {\n\t\tprotocols tls1.3\n\t}",
+		"\ttls {\n\t\tciphers TLS_ECDHE_RSA_WITH_AES_128_GCM_SHA256\n\t\tcurves x25519\n\t}",
+		"\ttls {\n\t\tissuer internal {\n\t\t\tlifetime 1d\n\t\t}\n\t}",
+		"\ttls {\n\t\ton_demand\n\t}",
+		"\ttls {\n\t\tkey_type p384\n\t}",
+		"\ttls {\n\t\tclient_auth {\n\t\t\tmode request\n\t\t}\n\t}",
+		"",
+		"",
+	}
+	extras := []string{"\tlog", "\tlog {\n\t\toutput discard\n\t}", "\tlog_skip /health*", "\trespond /a one\n\trespond /a two", "\theader /s X-A b\n\theader /s X-C d", "\tbind 127.0.0.1", "\trespond ok", ""}
+	var sb strings.Builder
+	if r.Chance(1, 2) {
+		sb.WriteString("{\n")
+		for _, g := range []string{"\ton_demand_tls {\n\t\task http://localhost:9123/ask\n\t}", "\temail a@b.test", "\tlocal_certs", "\tauto_https disable_redirects", "\tskip_install_trust", "\tcert_issuer internal", "\tkey_type rsa2048"} {
+			if r.Chance(1, 4) {
+				sb.WriteString(g + "\n")
+			}
+		}
+		sb.WriteString("}\n")
+	}
+	used := map[string]bool{}
+	for k := 2 + r.Intn(4); k > 0; k-- {
+		var ks []string
+		for j := 1 + r.Intn(3); j > 0; j-- {
+			h := hosts[r.Intn(len(hosts))]
+			if used[strings.ToLower(h)] {
+				continue
+			}
+			used[strings.ToLower(h)] = true
+			if r.Chance(1, 6) {
+				h += ":8443"
+			}
+			ks = append(ks, h)
+		}
+		if len(ks) == 0 {
+			continue
+		}
+		if r.Chance(1, 8) {
+			ks = append([]string{":443"}, ks...)
+		}
+		sb.WriteString(strings.Join(ks, ", ") + " {\n")
+		if t := tlsBodies[r.Intn(len(tlsBodies))]; t != "" {
+			sb.WriteString(t + "\n")
+		}
+		if e := extras[r.Intn(len(extras))]; e != "" {
+			sb.WriteString(e + "\n")
+		}
+		sb.WriteString("}\n")
+	}
+	return "dadapt " + core.Hex(sb.String())
 }
